@@ -110,6 +110,38 @@ def rollback_rules(rep, prog, C, fams, r22, r23, names=("add_impl", "update_impl
                     rep.ob(r22, "swap|%s|%s" % (name, fam), ok,
                            "rollback update must restore (new -> old): its `old` operand borrows tuple field .1 and its `new` operand field .0 (got .%s / .%s)" % (
                                a_old, a_new), e.where())
+        # two-phase protocol (claim, write, release): a forward pass that only claims the new B-tree values (insert, no update /
+        # remove) leaves the old ones in the index; they are released behind the acknowledged write, with the operands in the
+        # opposite order of the rollback's restore (both read the same (old, new) record)
+        pre_b = {op for op, e_ in fwd.get("btree_indexes", ()) if op in MUT_OPS and e_.kind == "call" and not _post_commit(e_)}
+        rb_b = {op for op, _ in rb.get("btree_indexes", ())}
+        # (an add has no old values: its rollback removes; a replacement's rollback restores an (old, new) record with update)
+        if forward_cl and "insert" in pre_b and not (pre_b & {"update", "remove", "batch_update"}) and "update" in rb_b:
+            own = fam_ops(prog, [f], fams).get("btree_indexes", ())
+            rel = [(op, e_) for (op, e_) in own if e_.fn is f and e_.kind == "call" and op in ("update", "remove", "batch_update") and _post_commit(e_)]
+            for c in clos:          # ... or in a closure / inlined helper invoked only behind the acknowledged write
+                if any(c is x for x, _ in rollback) or any(c is x for x, _ in forward_cl):
+                    continue
+                sites_ = [e_ for e_ in f.calls() if c.id in prog.callee_nodes(e_)]
+                if sites_ and all(_post_commit(e_) for e_ in sites_):
+                    rel += [(op, e_) for (op, e_) in fam_ops(prog, [c] + prog.closures_of(c), fams).get("btree_indexes", ()) if op in ("update", "remove", "batch_update")]
+            rep.ob(r22, "claimed-values-released-after-write|%s" % name, bool(rel),
+                   "%s only claims the new B-tree values before the document write (insert, no update / remove) and never releases the old ones behind the "
+                   "acknowledged write: every update leaves the replaced value in the index - a stale hit for readers, and a unique value that stays taken "
+                   "although its holder changed" % name, f.file + ":%d" % f.line)
+            rb_order = [(_first_ref_field(e_.fn, e_.args[2]), _first_ref_field(e_.fn, e_.args[3])) for (op, e_) in rb.get("btree_indexes", ()) if op == "update" and len(e_.args) >= 4]
+            rb_order = [x for x in rb_order if None not in x]
+            for (op, e_) in rel:
+                if op != "update" or len(e_.args) < 4:
+                    continue
+                got = (_first_ref_field(e_.fn, e_.args[2]), _first_ref_field(e_.fn, e_.args[3]))
+                if None in got or not rb_order:
+                    rep.note("release-operands-not-decided|%s" % name, "operand origin of the release at line %d not resolved to record fields" % e_.line)
+                    continue
+                rep.ob(r22, "release-opposes-restore|%s" % name, all(got == (r_[1], r_[0]) for r_ in rb_order),
+                       "the release behind the acknowledged write passes the (old, new) record to BTree::update in the same order as the rollback's restore "
+                       "(fields .%s -> .%s, restore .%s -> .%s): one of the two is backwards - the release would take the new value out and keep the old one" % (
+                           got[0], got[1], rb_order[0][0], rb_order[0][1]), e_.where())
         # id-keyed families (BM25, HNSW): a removal of the id after an insertion of the same id, in the same pass, deletes the
         # entry that was just (re)inserted - the remove must come first in the forward pass *and* in the rollback closure
         for side, table in (("forward", fwd), ("rollback", rb)):
@@ -302,6 +334,52 @@ def run(rep, tier):
             rep.ob("R02.4", "paired|%s|%s.%s" % (prog.outer_fn(f).path.rsplit("::", 1)[1], which, kind), ok,
                    "%s %s of an id has no matching mutation of the sibling id structure on the same paths" % (which, kind), x.where())
 
+    # ------------------------------------------------------------------ R02.10 a change of the id bitmap reaches the version watermark
+    rep.rule("R02.10", "a change of the id bitmap is followed, on every path to a successful return, by a bump of metadata.stats.version: flush compares "
+             "that version with last_saved_version and takes its no-op path when they agree, so an unbumped change never reaches ids.cbor (after the next "
+             "reopen the reported id set and the fetchable documents differ)", floor=5)
+    n210 = 0
+    for f in prog.fns.values():
+        if f.crate != "anda_db" or not prog.outer_fn(f).path.startswith(anda.COLL + "::"):
+            continue
+        D = [e for e in f.calls_named(r"croaring::treemap::.*Treemap>?::(add|remove)$") if "doc_ids" in anda.recv_fields(f, e)]
+        if not D:
+            continue
+        outer = prog.outer_fn(f)
+        host = f
+        in_closure = not (f is outer or prog.async_body(outer) is f)
+        if in_closure:
+            # the mutation sits in a plain closure (a filter over the dead ids): judged in the function that runs it, by existence only -
+            # whether the closure changed anything is a run-time value
+            host = prog.async_body(outer) or outer
+        bumps = []
+        for e in host.calls_named(r"Collection::update_metadata$"):
+            cl = [prog.fns[o[1].cid] for a in e.args[1:] for o in host.slice_back_op(a) if o[0] == "create" and o[1].cid in prog.fns]
+            if any(_writes_field(c, "version") for c in cl):
+                bumps.append(e)
+        name = outer.path.rsplit("::", 1)[1]
+        rep.saw(host, len(D) + len(bumps))
+        n210 += 1
+        if in_closure:
+            made = [e.block for e in host.creates() if e.cid == f.id]
+            ok = bool(bumps) and bool(made) and any(host.can_reach(made, [b.block]) for b in bumps)
+        else:
+            okr = _ok_return_blocks(host) or set(host.return_blocks())
+            bb = {b for e in bumps for b in (e.block, e.call_block)}
+            ok = bool(bumps)
+            if ok:
+                try:
+                    at = valueflow.analyse(host, avoid=bb, marks={e.block for e in D})
+                    ok = not any((("mark",), 1) in envf for b in okr for envf in at.get(b, ()))
+                except RuntimeError:
+                    ok = all(host.must_pass(bb, okr, start=e.block) for e in D)
+        rep.ob("R02.10", "bitmap-change-bumps-version|%s" % name, ok,
+               "%s changes the id bitmap and can return successfully without bumping metadata.stats.version: when nothing else changed, the flush that follows "
+               "(the open path's, or the next explicit one) takes its no-change path, ids.cbor keeps the old id set while the intents / documents it was derived "
+               "from are gone - contains(id) and get(id) disagree after the next reopen" % name, D[0].where())
+    if n210 < 5:
+        raise CheckerFault("anchor missing: only %d functions change the id bitmap (expected add, remove, reconcile, repair, heal)" % n210)
+
     # ------------------------------------------------------------------ R02.5 typed wrapper agreement
     rep.rule("R02.5", "BTree wrapper: insert/remove/query_with accept the same (index type, value type) pairs; values_equal folds the cross-type pairs; scans cover all index types", floor=8)
     BT = "anda_db::index::btree::BTree"
@@ -460,6 +538,24 @@ def _err_return_blocks(f):
         if t["k"] == "call" and t["f"].get("path") == core.FROM_RESIDUAL and t["d"]["l"] == 0:
             out.add(b)
     return out
+
+
+def _ok_return_blocks(f):
+    """Blocks that produce a successful return value: `_0 = Ok(..)`."""
+    out = set()
+    for b in f.live_blocks():
+        for st in f.stmts(b):
+            if st[0] == "A" and st[1]["l"] == 0 and not st[1].get("p") and st[2]["k"] == "agg" and st[2]["a"].get("def") == "core::result::Result" and st[2]["a"].get("v") == "Ok":
+                out.add(b)
+    return out
+
+
+def _writes_field(c, field):
+    for b in c.live_blocks():
+        for st in c.stmts(b):
+            if st[0] == "A" and any(isinstance(x, dict) and x.get("n") == field for x in (st[1].get("p") or [])):
+                return True
+    return False
 
 
 def _first_ref_field(g, o, depth=0):
